@@ -551,6 +551,7 @@ func (d *dataCloser) Close() error {
 	if d.closed {
 		return fmt.Errorf("smtp: data writer closed twice")
 	}
+	d.closed = true
 
 	if err := d.WriteCloser.Close(); err != nil {
 		return err
@@ -583,7 +584,6 @@ func (d *dataCloser) Close() error {
 		}
 	}
 
-	d.closed = true
 	return nil
 }
 
